@@ -97,6 +97,19 @@ fn check_msg(lm: &LMsg, k: &Keyed, near: &[(KeySpec, HMACKey)], walk_faults: boo
     let p = ref_parse(&enc).expect("reference parses its own output");
     let macs: Vec<_> = p.tlvs.iter().filter(|t| t.ty == T_MI || t.ty == T_SHA).cloned().collect();
     // (ii) + (iv): each integrity attribute validates, whatever legal tail follows it
+    // every way of building the validating decoder (builder call order, repeated calls, clones) gives the same verdict on
+    // the untampered message and on one with the last MAC byte flipped (one message in 16, chosen by a hash of its bytes)
+    if crate::util::hash64(&enc) % 16 == 0 {
+        let vopts: Vec<Opts> = cu::all_opts().into_iter().filter(|o| o.ctx && o.key && o.validation).collect();
+        let routes = cu::all_routes(Some(k.subject), &vopts);
+        let mut tampered = enc.clone();
+        if let Some(t) = macs.last() {
+            tampered[t.off + 4 + t.value.len() - 1] ^= 0x01;
+        }
+        let n = cu::routes_agree(&routes, &enc, rep, &replay) + cu::routes_agree(&routes, &tampered, rep, &replay);
+        rep.add_extra("decoder_construction_routes_compared", n);
+        rep.sym("decoder-construction-routes");
+    }
     for t in &macs {
         match accepted(&enc, t.ty, k.subject, &plain, &validating) {
             Ok(true) => {
@@ -313,9 +326,9 @@ pub fn run(ctx: &RunCtx) -> i32 {
         rep,
         Finish {
             level: "fault_enumeration",
-            rule: format!("messages with 0..=2 body attributes over the {}-entry menu (values <=64 bytes; long values as singles) x 6 legal tails containing MI and/or SHA256 x {} keys (short-term incl. non-ASCII, long-term MD5 and SHA-256); for each: wire bytes == reference (independent HMAC over the RFC input under the independently derived key), every integrity attribute accepted under the right key whatever tail follows, rejected under every key differing in one character of user / realm / password (or algorithm), and rejected after every single-bit fault in the protected prefix (except header bytes 2-3), the attribute's own header and the MAC (pairs only under the first 3 keys; quick tier: pairs walk faults under one rotating tail). Plus one DATA blob of every length 0..=300 x 3 tails (fault walks for every length in the thorough tier, <=140 in the quick tier) and the deep messages of C01 (offsets around 256..4096 / 32768, long runs, repeats, rotations, quads) x 2 tails under a short-term and a long-term SHA-256 key, without fault walks; the offset family (MI / SHA256 / MI+SHA256+FINGERPRINT behind a filler at every 4-aligned body offset 0..=4200 (thorough 16,400), around multiples of 4096 (1024), every offset 65,300 up to the 65,532-byte maximum). Acceptance = validating decoder returns the attribute OR get_input_text+validate says true. Non-trivial = message that passed all of these", menu_v.len(), keys.len()),
+            rule: format!("messages with 0..=2 body attributes over the {}-entry menu (values <=64 bytes; long values as singles) x 6 legal tails containing MI and/or SHA256 x {} keys (short-term incl. non-ASCII, long-term MD5 and SHA-256); for each: wire bytes == reference (independent HMAC over the RFC input under the independently derived key), every integrity attribute accepted under the right key whatever tail follows, rejected under every key differing in one character of user / realm / password (or algorithm), and rejected after every single-bit fault in the protected prefix (except header bytes 2-3), the attribute's own header and the MAC (pairs only under the first 3 keys; quick tier: pairs walk faults under one rotating tail). Plus one DATA blob of every length 0..=300 x 3 tails (fault walks for every length in the thorough tier, <=140 in the quick tier) and the deep messages of C01 (offsets around 256..4096 / 32768, long runs, repeats, rotations, quads) x 2 tails under a short-term and a long-term SHA-256 key, without fault walks; the offset family (MI / SHA256 / MI+SHA256+FINGERPRINT behind a filler at every 4-aligned body offset 0..=4200 (thorough 16,400), around multiples of 4096 (1024), every offset 65,300 up to the 65,532-byte maximum). For one message in 16 the untampered and a tampered copy are also decoded by every construction route of the four validating decoder configurations (builder calls in every order, a repeated call, clones of decoder and context) and must get the canonical decoder's verdict. Acceptance = validating decoder returns the attribute OR get_input_text+validate says true. Non-trivial = message that passed all of these", menu_v.len(), keys.len()),
             assumptions: vec!["R-strings table for the non-ASCII passwords".into()],
-            required_symbols: vec!["key-derivation", "accepted-untampered", "rejected-wrong-key", "fault-walks", "long-values", "prefix-length-sweep", "deep-messages", "offset-family"],
+            required_symbols: vec!["key-derivation", "accepted-untampered", "rejected-wrong-key", "fault-walks", "long-values", "prefix-length-sweep", "deep-messages", "offset-family", "decoder-construction-routes"],
             min_outcomes: 2,
             exhaustive: true,
             bounds: json!({"menu": menu_v.len(), "keys": keys.len(), "tails": 6}),
